@@ -470,7 +470,9 @@ impl<'a> Parser<'a> {
         if end > self.b.len() {
             return false;
         }
-        self.s[self.i..end].eq_ignore_ascii_case(kw)
+        // Compare bytes: `end` need not fall on a char boundary of `self.s` when the input
+        // continues with a multi-byte character (`.iné`), and slicing the `str` would panic.
+        self.b[self.i..end].eq_ignore_ascii_case(kw.as_bytes())
     }
 
     /// Attempt to parse a sexagesimal literal: hh:mm[:ss[.frac]]
